@@ -170,6 +170,16 @@ fn symmetry(t: &mut Tape, ctx: &mut Ctx, al: gen::Alpha) -> CheckResult {
         }
         ctx.sub("negative-control-twist");
     }
+    // positive control: a diagram is isomorphic to every renumbering of itself
+    {
+        let np = t.permutation(f.nodes.len());
+        let ep = t.permutation(f.edges.len());
+        let r = f.renumber(&np, &ep);
+        if !iso(&f, &r).is_iso() {
+            panic!("harness: iso rejected a renumbering of one diagram: {} vs {}", f.pretty(), r.pretty());
+        }
+        ctx.sub("positive-control-renumbering");
+    }
     if let Some(mutant) = point_mutation(t, &f) {
         if f.nodes.len() <= 6 && f.edges.len() <= 5 {
             let truth = iso_brute(&f, &mutant);
